@@ -1,15 +1,19 @@
 import KoordVerif.Common.Proto
 import KoordVerif.Model.C18
+import KoordVerif.Model.C18Usage
 /-
 Driver for C18.  One case = one history of balance rounds on one node pool.
   cfg <abn> <norm> <numberOfNodes> <dryRun> <deviation>        abn = 0 ⇒ AnomalyCondition nil
   pct <dim> <low> <high> <plow> <phigh>    dim 0=cpu 1=memory 2=pods; quarter-percent, -1 = key absent
   round <total> <nodeFit>
-  node <id> <unsched> <noFit> <cap×3> <usage×3> <prodUsage×3>
-  pod <node> <id> <prod> <hasMetric> <mCpu> <mMem> <filt1> <filt2> <evictOK>
+  node <id> <unsched> <noFit> <alloc×3> <rawKind> <raw×3> <sysCpu> <sysMem>
+        alloc = status.allocatable; rawKind 0 = no raw-allocatable annotation, 1 = parsed (raw×3,
+        a resource the annotation does not name is 0), 2 = unparsable
+  pod <node> <id> <ns> <name> <prod> <filt1> <filt2> <evictOK>
+  metric <node> <ns> <name> <cpu> <mem>       one NodeMetric.Status.PodsMetric entry, in list order
   order <node> <pod>*        observed processing order (sort orders are fed through, DESIGN §2.4)
   go
-Output per round: `thr`/`cls` per node, `evict` per Evict call, `det` per cached detector, `end`.
+Output per round: `use` (measured usage / prod usage, -1 = resource not in the map), `thr`/`cls` per node, `evict` per Evict call, `det` per cached detector, `end`.
 The percent→quantity step `int64(float64(pct)*0.01*float64(cap))` and the deviation-mode averages
 use Lean's runtime Float (IEEE binary64, as Go).
 -/
@@ -27,6 +31,7 @@ def resourceThreshold (pct : Float) (cap : Int) : Int :=
 def normalizePct (p : Float) : Float :=
   if p > 100.0 then 100.0 else if p < 0.0 then 0.0 else p
 
+/-- a node after getNodeUsage: `cap` is what the percentage formulas divide by. -/
 structure RawNode where
   id : Nat
   unsched : Bool
@@ -35,9 +40,48 @@ structure RawNode where
   usage : List Int
   prodUsage : List Int
 
+/-- a node as it comes over the wire. -/
+structure WireNode where
+  id : Nat
+  unsched : Bool
+  noFit : Bool
+  alloc : List Int
+  anno : RawAnno
+  sys : List Int
+
+structure WirePod where
+  node : Nat
+  id : Nat
+  key : Key
+  prod : Bool
+  filt1 : Bool
+  filt2 : Bool
+  evictOK : Bool
+
+structure WireMetric where
+  node : Nat
+  entry : MetricEntry
+
 structure RawPod where
   node : Nat
   pod : Pod   -- metric/fitMetric still over the three raw dims
+
+/-- getNodeUsage for one node (cpu, memory from the NodeMetric; pods = number of assigned pods). -/
+def measure (pods : List WirePod) (ms : List WireMetric) (n : WireNode) : RawNode :=
+  let refs : List PodRef := (pods.filter (·.node = n.id)).map fun p => ⟨p.key, p.prod⟩
+  let es : List MetricEntry := (ms.filter (·.node = n.id)).map (·.entry)
+  { id := n.id, unsched := n.unsched, noFit := n.noFit,
+    cap := capacityFor .thresholds n.alloc n.anno,
+    usage := measuredUsage n.sys es ++ [podCount false refs],
+    prodUsage := measuredProdUsage [0, 0] refs es ++ [podCount true refs] }
+
+/-- the pod with what `podMetrics[NamespacedName]` holds for it. -/
+def withMetric (ms : List WireMetric) (p : WirePod) : RawPod :=
+  let es : List MetricEntry := (ms.filter (·.node = p.node)).map (·.entry)
+  let m := podMetric? es p.key
+  let v := m.getD [0, 0]
+  ⟨p.node, { id := p.id, prod := p.prod, hasMetric := m.isSome, metric := v ++ [1], fitMetric := v ++ [0],
+             filt1 := p.filt1, filt2 := p.filt2, evictOK := p.evictOK }⟩
 
 /-- calcAverageResourceUsagePercent for one raw dim. -/
 def avgPct (sel : RawNode → List Int) (d : Nat) (ns : List RawNode) : Float :=
@@ -101,16 +145,19 @@ structure Acc where
   st : St := ⟨[], []⟩
   total : Nat := 0
   nodeFit : Bool := false
-  nodes : List RawNode := []
-  pods : List RawPod := []
+  nodes : List WireNode := []
+  pods : List WirePod := []
+  metrics : List WireMetric := []
   orders : List (Nat × List Nat) := []
   out : Array String := #[]
   bad : Bool := false
 
 def runRoundLines (a : Acc) (dc : DrvCfg) : Acc :=
   let dims := trackedDims dc.pcts
-  let nodes := a.nodes.reverse
-  let pods := a.pods.reverse
+  let wpods := a.pods.reverse
+  let wms := a.metrics.reverse
+  let nodes := a.nodes.reverse.map (measure wpods wms)
+  let pods := wpods.map (withMetric wms)
   let orders := a.orders.reverse
   let ns := nodes.map (buildNode dc dims nodes pods)
   let podOrd : Nat → List Nat := fun i => match orders.find? (·.1 = i) with
@@ -119,12 +166,15 @@ def runRoundLines (a : Acc) (dc : DrvCfg) : Acc :=
   let rin : RoundIn := ⟨a.total, a.nodeFit, dims.length, ns, orders.map (·.1), podOrd⟩
   let ro := runRound dc.cfg a.st rin
   let st : St := ⟨observeDets dc.cfg.cond ro.st.nodeDet, observeDets dc.cfg.cond ro.st.prodDet⟩
+  let useVec (v : List Int) : List Int := (List.range 3).map fun d =>
+    if d == 2 || dims.contains d then v.getD d 0 else -1
   let lines : List String :=
-    ns.map (fun n => s!"thr {n.id} {showInts (n.low ++ n.high ++ n.plow ++ n.phigh)}")
+    nodes.map (fun n => s!"use {n.id} {showInts (useVec n.usage ++ useVec n.prodUsage)}")
+    ++ ns.map (fun n => s!"thr {n.id} {showInts (n.low ++ n.high ++ n.plow ++ n.phigh)}")
     ++ ns.map (fun n => s!"cls {n.id} {(classify n).code}")
     ++ ro.evs.map (fun e => s!"evict {e.node} {e.pod} {b2i e.ok}")
     ++ showDets 0 st.nodeDet ++ showDets 1 st.prodDet ++ ["end"]
-  { a with st := st, nodes := [], pods := [], orders := [], out := a.out ++ lines.toArray }
+  { a with st := st, nodes := [], pods := [], metrics := [], orders := [], out := a.out ++ lines.toArray }
 
 def step (a : Acc) (line : String) : Acc :=
   if a.bad then a else
@@ -144,19 +194,26 @@ def step (a : Acc) (line : String) : Acc :=
     | _, _ => fail
   | "round" :: rest =>
     match ints? rest with
-    | some [total, nf] => { a with total := total.toNat, nodeFit := nf ≠ 0, nodes := [], pods := [], orders := [] }
+    | some [total, nf] => { a with total := total.toNat, nodeFit := nf ≠ 0, nodes := [], pods := [], metrics := [], orders := [] }
     | _ => fail
   | "node" :: rest =>
     match ints? rest with
-    | some [id, us, nf, c0, c1, c2, u0, u1, u2, p0, p1, p2] =>
-      { a with nodes := ⟨id.toNat, us ≠ 0, nf ≠ 0, [c0, c1, c2], [u0, u1, u2], [p0, p1, p2]⟩ :: a.nodes }
+    | some [id, us, nf, c0, c1, c2, rk, r0, r1, r2, s0, s1] =>
+      if rk < 0 || rk > 2 then fail else
+      let anno : RawAnno := if rk = 0 then .absent else if rk = 1 then .parsed [r0, r1, r2] else .unparsable
+      { a with nodes := ⟨id.toNat, us ≠ 0, nf ≠ 0, [c0, c1, c2], anno, [s0, s1]⟩ :: a.nodes }
     | _ => fail
   | "pod" :: rest =>
     match ints? rest with
-    | some [node, id, prod, hm, m0, m1, f1, f2, ok] =>
-      let p : Pod := { id := id.toNat, prod := prod ≠ 0, hasMetric := hm ≠ 0, metric := [m0, m1, 1],
-                       fitMetric := [m0, m1, 0], filt1 := f1 ≠ 0, filt2 := f2 ≠ 0, evictOK := ok ≠ 0 }
-      { a with pods := ⟨node.toNat, p⟩ :: a.pods }
+    | some [node, id, ns, name, prod, f1, f2, ok] =>
+      if ns < 0 || name < 0 then fail else
+      { a with pods := ⟨node.toNat, id.toNat, (ns.toNat, name.toNat), prod ≠ 0, f1 ≠ 0, f2 ≠ 0, ok ≠ 0⟩ :: a.pods }
+    | _ => fail
+  | "metric" :: rest =>
+    match ints? rest with
+    | some [node, ns, name, m0, m1] =>
+      if node < 0 || ns < 0 || name < 0 then fail else
+      { a with metrics := ⟨node.toNat, ⟨(ns.toNat, name.toNat), [m0, m1]⟩⟩ :: a.metrics }
     | _ => fail
   | "order" :: rest =>
     match nats? rest with
